@@ -58,6 +58,20 @@ theorem elseKind_nilFirst {l : NList} (h : elseKind l = .nilFirst) : noNilL l = 
   · split at h <;> cases h
   · cases h
 
+theorem noNilL_filter (p : Option Node → Bool) : ∀ l : NList, noNilL l = true → noNilL (l.filter p) = true
+  | [], _ => by simp [noNilL]
+  | x :: xs, h => by
+    simp only [noNilL, Bool.and_eq_true] at h
+    unfold List.filter
+    split
+    · simp only [noNilL, Bool.and_eq_true]; exact ⟨h.1, noNilL_filter p xs h.2⟩
+    · exact noNilL_filter p xs h.2
+
+theorem noNilL_elseStmts (c : Bool) (l : NList) (h : noNilL l = true) : noNilL (elseStmts c l) = true := by
+  unfold elseStmts; split
+  · exact noNilL_filter _ l h
+  · exact h
+
 mutual
 
 theorem printNode_ok (tbl : Nat → Bool) : ∀ (n : Node), n.noNil = true → precOK n = true →
@@ -132,8 +146,8 @@ theorem printNode_ok (tbl : Nat → Bool) : ∀ (n : Node), n.noNil = true → p
       · next e' heq => exact fun _ => absurd heq (printStmts_ok tbl a hn.1.2 hp.1.2 _ _)
       · dsimp only
         split
-        · next hk => have := elseKind_nilFirst hk; rw [hn.2] at this; cases this
-        · exact printHead_ok tbl l hn.2 hp.2 _ _
+        · next hk => have := elseKind_nilFirst hk; rw [noNilL_elseStmts _ l hn.2] at this; cases this
+        · exact printHead_ok tbl _ l hn.2 hp.2 _ _
         · exact printBlock_ok tbl l hn.2 hp.2 _ _
   | .builtin _ params, hn, hp, ps, e => by
     unfold printNode
@@ -203,14 +217,16 @@ theorem printO_ok (tbl : Nat → Bool) : ∀ (o : Option Node), noNilO o = true 
     unfold printO
     exact printNode_ok tbl n (by simpa [noNilO] using hn) (by simpa [precOKO] using hp) ps e
 
-theorem printHead_ok (tbl : Nat → Bool) : ∀ (l : List (Option Node)), noNilL l = true → precOKL l = true →
-    ∀ ps e, printHead tbl l ps ≠ .error e
+theorem printHead_ok (tbl : Nat → Bool) (sk : Bool) : ∀ (l : List (Option Node)), noNilL l = true → precOKL l = true →
+    ∀ ps e, printHead tbl sk l ps ≠ .error e
   | [], _, _, _, _ => by unfold printHead; okne
-  | x :: _, hn, hp, ps, e => by
+  | x :: xs, hn, hp, ps, e => by
     simp only [noNilL, Bool.and_eq_true] at hn
     simp only [precOKL, Bool.and_eq_true] at hp
     unfold printHead
-    exact printO_ok tbl x hn.1 hp.1 _ _
+    split
+    · exact printHead_ok tbl sk xs hn.2 hp.2 _ _
+    · exact printO_ok tbl x hn.1 hp.1 _ _
 
 theorem printList_ok (tbl : Nat → Bool) : ∀ (l : List (Option Node)), noNilL l = true → precOKL l = true →
     ∀ ps i e, printList tbl l ps i ≠ .error e
